@@ -212,6 +212,7 @@ def run(ctx):
 
 # ----------------------------------------------------------------------------------------------------------------------
     check_per_call_options_honoured(ctx)
+    check_option_carrying_params(ctx)
 
 
 def public_option_methods(ctx):
@@ -394,3 +395,73 @@ def check_per_call_options_honoured(ctx):
                       sample={'function': fi.key, 'call': norm(c, 60)})
     if n < 50:
         raise AnalysisError(f'only {n} get_option() reads in functions with an options mapping found')
+
+
+def check_option_carrying_params(ctx):
+    """R20.10 — some helpers take a *resolved* option value as a parameter named like the option (`docstr`, ...), with the global default as
+    parameter default.  Which (helper, parameter) pairs carry an option is read off the code: at least one caller passes
+    `get_option('<name>', ...)` (or a local bound to it, or its own parameter of that name) for it.  Every other caller that has per-call
+    options (or such a parameter) in scope must pass the parameter too; leaving it out silently replaces the per-call value by the default."""
+    from ..callgraph import Resolver
+    ctx.rule('R20.10', 'a helper parameter that carries a resolved option is supplied by every caller that has per-call options in scope', 10)
+    OPT = set(ctx.ev.get('fst_options', '_GLOBAL_OPTIONS_W_DEFAULTS').keys())
+    res = Resolver(ctx.repo, ctx.ev)
+    carry, sites = {}, []
+    for fi in ctx.repo.all_funcs():
+        if isinstance(fi.node, ast.Lambda):
+            continue
+        a = fi.node.args
+        names = [p.arg for p in a.posonlyargs + a.args + a.kwonlyargs] + ([a.kwarg.arg] if a.kwarg else [])
+        has_opts = any(p == 'options' or p.endswith('_options') for p in names)
+        optlocals = {}
+        for x in walk_no_nested(fi.node):
+            if isinstance(x, (ast.Assign, ast.NamedExpr)):
+                t = x.targets[0] if isinstance(x, ast.Assign) else x.target
+                v = x.value
+                if isinstance(t, ast.Name) and isinstance(v, ast.Call) and call_name(v) == 'get_option' and v.args and isinstance(v.args[0], ast.Constant):
+                    optlocals[t.id] = v.args[0].value
+        for c in walk_no_nested(fi.node):
+            if not isinstance(c, ast.Call):
+                continue
+            for cal in res.resolve(c, fi):
+                if isinstance(cal.node, ast.Lambda) or cal.key == fi.key:
+                    continue
+                ca = cal.node.args
+                cps = [p.arg for p in ca.posonlyargs + ca.args]
+                kwo = [p.arg for p in ca.kwonlyargs]
+                if any(p == 'options' or p.endswith('_options') for p in cps + kwo + ([ca.kwarg.arg] if ca.kwarg else [])):
+                    continue        # the callee gets the mapping itself
+                bound = 1 if (cps[:1] == ['self'] and isinstance(c.func, ast.Attribute)) else 0
+                star = any(isinstance(x, ast.Starred) for x in c.args) or any(k.arg is None for k in c.keywords)
+                for i, p in enumerate(cps + kwo):
+                    if p not in OPT:
+                        continue
+                    arg = None
+                    if p in cps and 0 <= i - bound < len(c.args):
+                        arg = c.args[i - bound]
+                    for k in c.keywords:
+                        if k.arg == p:
+                            arg = k.value
+                    ev = arg is not None and (
+                        (isinstance(arg, ast.Call) and call_name(arg) == 'get_option' and arg.args and isinstance(arg.args[0], ast.Constant) and arg.args[0].value == p)
+                        or (isinstance(arg, ast.Name) and optlocals.get(arg.id) == p) or (isinstance(arg, ast.Name) and arg.id == p and p in names))
+                    if ev:
+                        carry[(cal.key, p)] = fi.key
+                    sites.append((fi, c, cal, p, arg, has_opts or p in names, star))
+    # propagate: a helper that forwards its own parameter <p> into an option-carrying (callee, <p>) carries the option itself
+    changed = True
+    while changed:
+        changed = False
+        for fi, c, cal, p, arg, in_scope, star in sites:
+            if (cal.key, p) in carry and isinstance(arg, ast.Name) and arg.id == p and p in fi.params() and (fi.key, p) not in carry:
+                carry[(fi.key, p)] = f'{cal.key} (forwarded)'
+                changed = True
+    if len(carry) < 5:
+        raise AnalysisError(f'only {len(carry)} option-carrying helper parameters found')
+    for fi, c, cal, p, arg, in_scope, star in sites:
+        if (cal.key, p) not in carry or not in_scope or star:
+            continue
+        ctx.check('R20.10', arg is not None, fi.module, fi.qualname, f'{norm(c, 60)} -> {cal.qualname}({p}=)',
+                  f'`{cal.qualname}` takes the resolved option {p!r} as a parameter (e.g. from {carry[(cal.key, p)]}), this caller has per-call options in '
+                  f'scope but leaves it at the default: a value given for this call only is ignored here', c.lineno,
+                  sample={'caller': fi.key, 'callee': cal.key, 'param': p})
